@@ -135,14 +135,14 @@ MkBase(i, pv, k) ==
 
 Enc(w, val) == CASE w = 1 -> <<val % 256>> [] w = 2 -> Short(val) [] w = 4 -> Int32(val)
 Replace(bytes, off, w, nb) == SubSeq(bytes, 1, off) \o nb \o SubSeq(bytes, off + w + 1, Len(bytes))
-\* (huge: 2^31-1 ends the child process on the unrepaired tree; the quick tier asks it of one variant per type)
+\* (huge: 2^31-1 ends the child process on the unrepaired tree; it is asked of one variant per type and framing)
 LenVals(fd, huge) ==
   LET n == fd.n IN
   (CASE fd.w = 4 -> {-1, -2, 0, n - 1, n + 1, 32768, 2097152} \cup (IF huge THEN {2147483647} ELSE {})
      [] fd.w = 2 -> {65535, 65534, 0, n - 1, n + 1, 32768, 32767} \cap (0 .. 65535)) \ {n}
 FieldMuts(s) ==
   UNION {LET fd == s.fields[i]
-         IN {[mk |-> fd.k, f |-> fd.f, off |-> fd.off, w |-> fd.w, val |-> x] : x \in LenVals(fd, Tier = "thorough" \/ s.var = 0)}
+         IN {[mk |-> fd.k, f |-> fd.f, off |-> fd.off, w |-> fd.w, val |-> x] : x \in LenVals(fd, s.var = 0)}
          : i \in 1 .. Len(s.fields)}
 Case(s, mk, f, off, val, bytes) == [s EXCEPT !.t = "case", !.mk = mk, !.f = f, !.off = off, !.val = val, !.bytes = bytes, !.fields = <<>>]
 
